@@ -34,3 +34,18 @@ spec fn all_genuine(v: Seq<String>, hd: RawMap) -> bool { forall|i: int| 0 <= i 
 spec fn sd_map_view(m: vstd::map::Map<Seq<char>, (&Value, &str)>) -> vstd::map::Map<Seq<char>, (J, Seq<char>)> {
     m.map_values(|p: (&Value, &str)| (jv(*p.0), p.1@))
 }
+// the JSON-serialised presentation: the parsed envelope with this call's disclosures, and a KB-JWT only when one was made
+spec fn presented_json(base: SDJWTJson, ds: Vec<String>, kb: String) -> SDJWTJson {
+    SDJWTJson { protected: base.protected, payload: base.payload, signature: base.signature, disclosures: ds,
+                kb_jwt: if kb@.len() > 0 { Some(kb) } else { base.kb_jwt } }
+}
+spec fn r_hash_string(h: &SDJWTHolder) -> String {
+    if h.key_binding_jwt_payload@.contains_key("sd_hash"@) { match h.key_binding_jwt_payload@["sd_hash"@] { Value::String(s) => s, _ => arbitrary() } } else { arbitrary() }
+}
+proof fn lemma_kb_keys_distinct()
+    ensures "nonce"@ != "aud"@, "nonce"@ != "iat"@, "nonce"@ != "sd_hash"@, "aud"@ != "iat"@, "aud"@ != "sd_hash"@, "iat"@ != "sd_hash"@,
+{
+    reveal_strlit("nonce"); reveal_strlit("aud"); reveal_strlit("iat"); reveal_strlit("sd_hash");
+    assert("nonce"@.len() == 5 && "aud"@.len() == 3 && "iat"@.len() == 3 && "sd_hash"@.len() == 7);
+    assert("aud"@[0] == 'a' && "iat"@[0] == 'i');
+}
